@@ -104,6 +104,7 @@ pub fn render(m: bool, script: &[Cmd]) -> String {
             "fgstart" => format!("({})", fg_body_text(c.j)),
             "rel" => format!("echo x >/tmp/f{}", c.j),
             "settle" => "settle".to_string(),
+            "mon" => (if c.j == 1 { "set -m" } else { "set +m" }).to_string(),
             "jobs" => format!("{} >/tmp/o{i} 2>/tmp/e{i}", words(&["jobs", &c.opt], &c.ops)),
             "wait" => format!("{} 2>/tmp/e{i}", words(&["wait"], &c.ops)),
             "bg" => format!("{} >/tmp/o{i} 2>/tmp/e{i}", words(&["bg"], &c.ops)),
@@ -452,9 +453,6 @@ pub fn run_script(m: bool, script: &[Cmd], schedule: Schedule) -> Run {
         "status": r.status,
         "stderr": stderr.len() > 0,
     });
-    // break the cycle state -> executor -> unfinished tasks -> state, or every run leaks
-    let executor = r.state.borrow_mut().executor.take();
-    drop(executor);
     Run { record, choices: r.choices }
 }
 
